@@ -6,6 +6,8 @@ import Rl.Spec.OracleNav
 namespace Rl.Spec
 open Rl Rl.Wire
 
+/-- `idx` is the position of the entry ON DISPLAY (before the first hit: the newest entry, where the
+    search starts); it moves only when a search hits -/
 structure SearchSt where
   buf : Text
   idx : Nat
@@ -17,8 +19,10 @@ def isAbortKey (mode : String) (k : KeyEvent) : Bool :=
 
 def oracleC08 (hist : List Text) (o : ImplObs) : OVerdict :=
   let len := hist.length
-  let doSearch (k : Nat) (st : SearchSt) (cb : Obs) (nl : Text) (np : Option Nat) : SearchSt × OVerdict :=
-    match Spec.find true hist st.buf st.idx st.dir with
+  -- one search for `st.buf` starting at `start` (the shown entry itself after a typed character, its
+  -- neighbour in the search direction for a repeated search key)
+  let doSearch (k : Nat) (st : SearchSt) (start : Nat) (cb : Obs) (nl : Text) (np : Option Nat) : SearchSt × OVerdict :=
+    match Spec.find true hist st.buf start st.dir with
     | some (i, e, off) =>
       let v : OVerdict :=
         if nl != e then some s!"C08:shown-line-is-not-the-nearest-matching-entry(cb {k})"
@@ -27,7 +31,8 @@ def oracleC08 (hist : List Text) (o : ImplObs) : OVerdict :=
           | none => none
       ({ st with idx := i }, v)
     | none =>
-      -- failure: the line shown stays
+      -- failure: the line shown stays, and so does the position (the next repeat is again judged
+      -- from the entry on display: no nearer match may be skipped)
       (st, if nl == cb.line then none else some s!"C08:line-changed-although-nothing-matches(cb {k})")
   let rec go (k : Nat) (cur : Option SearchSt) : List (Obs × Text × Option Nat) → OVerdict
     | [] => none
@@ -53,7 +58,7 @@ def oracleC08 (hist : List Text) (o : ImplObs) : OVerdict :=
             match key.code with
             | .char c =>
               let st := { st with buf := st.buf ++ [c] }
-              let (st', v) := doSearch k st cb nl np
+              let (st', v) := doSearch k st st.idx cb nl np
               match v with | some w => some w | none => go (k + 1) (some st') rest
             | _ => go (k + 1) (some st) rest
           else if ((key == ⟨.backspace, 0⟩ || key == ⟨.char 'H', 8⟩) && cb.mode != "vc" && (cb.mode != "e" || cb.positive))
@@ -63,16 +68,16 @@ def oracleC08 (hist : List Text) (o : ImplObs) : OVerdict :=
             if nl == cb.line then go (k + 1) (some st) rest else some s!"C08:backspace-changed-the-line(cb {k})"
           else if key == ⟨.char 'R', 8⟩ then
             if st.idx > 0 then
-              let st := { st with idx := st.idx - 1, dir := .reverse }
-              let (st', v) := doSearch k st cb nl np
+              let st := { st with dir := .reverse }
+              let (st', v) := doSearch k st (st.idx - 1) cb nl np
               match v with | some w => some w | none => go (k + 1) (some st') rest
             else
               if nl == cb.line then go (k + 1) (some { st with dir := .reverse }) rest
               else some s!"C08:line-changed-at-oldest-entry(cb {k})"
           else if key == ⟨.char 'S', 8⟩ then
             if st.idx + 1 < len then
-              let st := { st with idx := st.idx + 1, dir := .forward }
-              let (st', v) := doSearch k st cb nl np
+              let st := { st with dir := .forward }
+              let (st', v) := doSearch k st (st.idx + 1) cb nl np
               match v with | some w => some w | none => go (k + 1) (some st') rest
             else
               if nl == cb.line then go (k + 1) (some { st with dir := .forward }) rest
